@@ -126,7 +126,56 @@ def d3_exceptions(facts, rep):
         ok = bool(th) and bool(fe) and all(dominated_by_edges(fn, c[0], fe)[0] for c in th)
         rep.ob('D3', 'K4', fn, 'push() throws only when its own operation FAILED', ok, 'throw not tied to the own status', key_extra=str(fn.l0))
         npush += 1
-    rep.floor('D3', 4, 'exception isolation')
+    d3_user_ops_in_handler(facts, rep)
+    rep.floor('D3', 5, 'exception isolation')
+
+
+def d3_user_ops_in_handler(facts, rep):
+    """Inside the aggregator handler (handle_operations and the heap maintenance it calls) an exception that escapes leaves
+    `handler_busy` set and the rest of the batch without a status: every thread with an operation in the batch and every later
+    operation spins forever, and the exception surfaces in whichever thread happened to run the handler.  So every user
+    operation in that closure - an operation on a value of the element type or a call of the user's comparator (template-
+    parameter typed, `tp`) - must be inside a try block.  One obligation per function and kind of operation."""
+    from rules.common import user_op
+    roots = facts.get(CPQ + 'handle_operations')
+    closure = {}
+    work = list(roots)
+    while work:
+        fn = work.pop()
+        if fn.u in closure:
+            continue
+        closure[fn.u] = fn
+        for pos, sx, node, d in calls(fn):
+            g = facts.fns.get(node.get('fn'))
+            if g is not None and g.cls == fn.cls and g.u not in closure:
+                work.append(g)
+    seen = {}
+    for fn in closure.values():
+        for b, i, e in fn.iter_elems():
+            if not isinstance(e, int) or not user_op(fn, e):
+                continue
+            nd = fn.nodes[e]
+            d = fn.callee(e) if nd.get('k') in ('call', 'ctor') else None
+            what = (d or {}).get('n') or nd.get('op') or nd.get('k')
+            if nd.get('k') == 'binop' and nd['op'] != '=':
+                continue        # index / size arithmetic on size_type (a typedef that goes through the allocator parameter)
+            if nd.get('k') == 'unop':
+                continue
+            what = {'operator()': 'comparator call', '=': 'element assignment', 'operator=': 'element assignment',
+                    '(ctor)': 'element construction'}.get(what, what)
+            key = (fn.p, what)
+            ent = seen.setdefault(key, {'fn': fn, 'unguarded': [], 'n': 0})
+            ent['n'] += 1
+            if nd.get('tr') is None:
+                ent['unguarded'].append(nd.get('ln'))
+    if not seen:
+        raise AnalysisBroken('no user operations found in the concurrent_priority_queue handler closure')
+    for (p, what), ent in sorted(seen.items()):
+        fn = ent['fn']
+        rep.ob('D3', 'K9', fn, 'user operation `%s` in %s is inside a try block' % (what, p.split('::')[-1]), not ent['unguarded'],
+               'a throwing element move / comparator at line(s) %s unwinds out of the aggregator handler: handler_busy stays set, the other '
+               'operations of the batch never get a status, every later operation on the queue hangs'
+               % sorted(set(ent['unguarded'])), key_extra='%s|%s' % (p, what))
 
 
 def d4_heap(facts, rep):
